@@ -563,6 +563,10 @@ fn entity_name(t: &SignedEntityType) -> String {
     }
 }
 
+thread_local! {
+    static IN_CYCLE: std::cell::Cell<bool> = const { std::cell::Cell::new(false) };
+}
+
 struct Harness {
     w: World,
     signer: Option<SignerProc>,
@@ -604,7 +608,10 @@ impl Harness {
                 // a panic of the code under test is data: it ends the process, which is then restarted
                 let r = {
                     use futures::FutureExt;
-                    std::panic::AssertUnwindSafe(self.signer.as_ref().unwrap().state_machine.cycle()).catch_unwind().await
+                    IN_CYCLE.with(|c| c.set(true));
+                    let r = std::panic::AssertUnwindSafe(self.signer.as_ref().unwrap().state_machine.cycle()).catch_unwind().await;
+                    IN_CYCLE.with(|c| c.set(false));
+                    r
                 };
                 {
                     let mut s = self.w.store.write().await;
@@ -920,7 +927,13 @@ fn run_schedule(dir: PathBuf, id: &Value, schedule: &[Value]) -> RunOutput {
 
 fn main() {
     let args = Args::parse();
-    vh_core::quiet_panics();
+    // panics inside a signer cycle are recorded as events (silently); any other panic is a harness bug and is printed
+    let default_hook = std::panic::take_hook();
+    std::panic::set_hook(Box::new(move |info| {
+        if !IN_CYCLE.with(|c| c.get()) {
+            default_hook(info);
+        }
+    }));
     let seed = args.num("seed", 1);
     let out = args.req("out");
     let work = PathBuf::from(args.get("work").unwrap_or("/verif/work/signer".into()));
